@@ -62,7 +62,7 @@ def main():
         try:
             for c in checks:
                 try:
-                    rc, out = sh("timeout 900 ./check %s --tier quick" % c, cwd=VERIF, timeout=1000)
+                    rc, out = sh("timeout 1500 ./check %s --tier quick" % c, cwd=VERIF, timeout=1600)
                 except subprocess.TimeoutExpired:
                     rc, out = 124, ""
                 viol = [l for l in out.splitlines() if l.startswith("VIOLATION")]
